@@ -16,6 +16,10 @@ def sim_model(system, index, seed, horizon):
     b = Buffer('b', [m1, m2, m3], capacity=2 + index, minimum_delay=0.5)
     Sink('k', [b], cycle_time=index % 2)
     system.simulate(0, print_summary=False)
+    from simprocesd.utils import geometric_distribution_sample
+    rare = geometric_distribution_sample(0.0004)          # seeded through the random module like everything else
+    m3.schedule_failure(2 + rare % 5)
+    system.env.schedule_event(8 + rare % 3, m3.id, m3.restore_functionality)
     m1.schedule_failure(3 + index)
     system.env.schedule_event(5 + index, m1.id, m1.restore_functionality)
     system.simulate(horizon, print_summary=False)
